@@ -144,3 +144,12 @@ func TraceLen() int { panic("verifspec: ghost function") }
 
 // TraceCall(i, f, arg): the i-th user-callback invocation was f(arg).
 func TraceCall(i int, f any, arg any) bool { panic("verifspec: ghost function") }
+
+// Shared declares an atomic cell (*sync/atomic.Value) as shared with other
+// threads: the environment takes a rely step on it now and whenever the code
+// under contract is about to acquire a mutex.
+func Shared(cell any) {}
+
+// Peek reads a shared sync/atomic.Value cell without giving the environment a
+// turn: the content as left by the last atomic step of the code under contract.
+func Peek(cell any) any { panic("verifspec: ghost function") }
